@@ -1,9 +1,9 @@
 CONSTANTS
   RMax = 2
   CMax = 2
-  MaxLen = 5
-  TMax = 9
-  Sample = 60
+  MaxLen = 4
+  TMax = 8
+  Sample = 40
 INIT Init
 NEXT Next
 VIEW View
